@@ -81,7 +81,20 @@ def in_encode_domain(pkt, v):
     kind, kv = parse_kv(pkt)
     if kind == "connect" and v == 311 and kv_get(kv, "cid", "x") == "x" and kv_get(kv, "clean", "0") != "1":
         return False
+    # ... nor, in 3.1.1, a password with no user name: such a CONNECT fails last-chance validation [MQTT-3.1.2-22]
+    if kind == "connect" and v == 311 and kv_get(kv, "pass") is not None and kv_get(kv, "user") is None:
+        return False
     return True
+
+
+def repair_to_domain(pkt, v):
+    kind, kv = parse_kv(pkt)
+    if kind == "connect" and v == 311:
+        if kv_get(kv, "cid", "x") == "x" and kv_get(kv, "clean", "0") != "1":
+            pkt = pkt.replace(" clean=0", "") + " clean=1"
+        if kv_get(kv, "pass") is not None and kv_get(kv, "user") is None:
+            pkt = pkt + " user=x75"
+    return pkt
 
 
 def encode_requests(rng, n_packets, allow_over):
@@ -90,7 +103,7 @@ def encode_requests(rng, n_packets, allow_over):
         pkt = G.gen_outbound(rng, allow_over=allow_over)
         v = rng.choice([5, 311])
         if not in_encode_domain(pkt, v):
-            pkt = pkt.replace(" clean=0", " clean=1")
+            pkt = repair_to_domain(pkt, v)
         kind = pkt.split(" ")[0]
         res = ""
         if kind == "publish" and v == 5 and rng.chance(0.5):
@@ -216,7 +229,7 @@ def suite_encode(report, tier, seed, prop="C02"):
             mon_spec_ok = False
 
             def repair(t, c=c):
-                return t if in_encode_domain(t, c["v"]) else t + " clean=1"
+                return t if in_encode_domain(t, c["v"]) else repair_to_domain(t, c["v"])
 
             def still_fails(t, c=c):
                 t = repair(t)
